@@ -9,6 +9,7 @@
 -/
 import NdnVerif.C10.LemmasTx
 import NdnVerif.C10.LemmasRx
+import NdnVerif.C10.LemmasLink
 namespace Ndn.C10
 open Ndn.Gen.C10 (lpPacketOverhead fragmentOverhead sequenceOverhead fragIndexCountOverhead
   incomingFaceIdOverhead congestionMarkOverhead)
@@ -258,5 +259,130 @@ theorem reassemble_any_interleaving_frames (msgs : List FMsg) (singles arrivals 
       rw [hall m hm] at this
       simpa using this
     · exact hI.2 b (fun m hm h => hb ⟨m, hm, h⟩)
+
+/-- non-vacuity: two messages in flight — a 2-fragment one whose numbering wraps around 2^64 and a
+    3-fragment one carrying a token — plus an unfragmented frame, arriving in reverse order -/
+example :
+    let m1 : FMsg := ⟨{}, 18446744073709551615, [[1], [2]]⟩
+    let m2 : FMsg := ⟨{ token := [9] }, 5, [[3], [4], [5]]⟩
+    let s : Frame := { frag := [7] }
+    (deliveries (rxRunF true (fun _ => true) []
+        ([m1, m2].flatMap FMsg.frames ++ [s]).reverse).2).Perm
+      ([m1, m2].map FMsg.delivery ++ [s].map singleDelivery) := by
+  intro m1 m2 s
+  refine (reassemble_any_interleaving_frames [m1, m2] [s] _ (fun _ => true) ?_ (by decide) (fun _ _ => rfl)
+    ?_ (List.reverse_perm _)).1
+  · intro m hm
+    simp at hm
+    rcases hm with rfl | rfl
+    · exact ⟨by decide, by decide, by decide, by decide⟩
+    · exact ⟨by decide, by decide, by decide, by decide⟩
+  · intro x hx
+    simp at hx; subst hx
+    exact ⟨rfl, rfl, rfl, by decide, rfl⟩
+
+/-- **C10, end to end: fragmentation and reassembly reproduce every packet exactly.**
+    ANY admissible packet `p` (1..8800 bytes, token ≤ 32 bytes, any mark / incoming face id), ANY
+    sender configuration with fragmentation enabled and MTU ≥ 128, ANY sender state (64-bit sequence
+    counter, also right below 2^64 where the numbering wraps).  The REAL frames are the encoded
+    bytes `encFrame`.  At the receiver they arrive in ANY order (`arrF`: any permutation),
+    interleaved with the frames of ANY number of other messages in flight whose sequence ranges
+    start elsewhere (`others`, base sequence numbers pairwise different and different from p's)
+    and with any unfragmented frames (`singles`).  Then the receiving link service delivers — as a
+    multiset — `p`'s original bytes exactly once, with its PIT token and the congestion mark
+    attached by the sender, and exactly one packet for every other message / single frame; and its
+    partial message store is empty afterwards. -/
+theorem reassemble_any_interleaving (cfg : TxCfg) (st : TxSt) (p : OutPkt) (validL3 : Bytes → Bool)
+    (hp : PktOk p) (hne : 1 ≤ p.wire.length) (hmtu : specMinMtu ≤ cfg.mtu) (hfrag : cfg.fragEnabled = true)
+    (hvp : validL3 p.wire = true)
+    (others : List FMsg) (singles : List Frame)
+    (hothers : ∀ m ∈ others, m.WF ∧ validL3 m.parts.flatten = true ∧ ∀ f ∈ m.frames, f.Encodable)
+    (hsingles : ∀ s ∈ singles, SingleOk validL3 s ∧ s.Encodable)
+    (hdisjoint : ((msgOf cfg st p :: others).map FMsg.base).Nodup)
+    (arrF : List Frame)
+    (harr : arrF.Perm ((sendPacketF cfg st p).2.1 ++ (others.flatMap FMsg.frames ++ singles))) :
+    (deliveries (rxRun true validL3 [] (arrF.map encFrame)).2).Perm
+        (⟨p.wire, p.token, (congestionStep cfg st p).1⟩ ::
+          (others.map FMsg.delivery ++ singles.map singleDelivery)) ∧
+    ∀ b, (rxRun true validL3 [] (arrF.map encFrame)).1.find? b = none := by
+  have hwne : p.wire ≠ [] := by intro h; rw [h] at hne; simp at hne
+  have hdisj' : (others.map FMsg.base).Nodup := by
+    simp only [List.map_cons, List.nodup_cons] at hdisjoint; exact hdisjoint.2
+  by_cases hfit : (encFrame (wholeOf cfg st p)).length ≤ cfg.mtu
+  · -- one frame
+    rw [sendPacketF_single cfg st p hfit] at harr
+    obtain ⟨hs1, hs2, hs3, hs4, henc⟩ := wholeOf_single cfg st p hp hwne
+    have hsok : ∀ s ∈ wholeOf cfg st p :: singles, SingleOk validL3 s := by
+      intro s hs
+      rcases List.mem_cons.mp hs with rfl | h
+      · exact ⟨hs1, hs2, hs3, hs4, hvp⟩
+      · exact (hsingles s h).1
+    have harr' : arrF.Perm (others.flatMap FMsg.frames ++ (wholeOf cfg st p :: singles)) := by
+      refine harr.trans ?_
+      simp only [List.singleton_append]
+      exact List.perm_middle.symm
+    have hencAll : ∀ f ∈ arrF, f.Encodable := by
+      intro f hf
+      rcases List.mem_append.mp (harr'.mem_iff.mp hf) with h | h
+      · obtain ⟨m, hm, hfm⟩ := List.mem_flatMap.mp h
+        exact (hothers m hm).2.2 f hfm
+      · rcases List.mem_cons.mp h with rfl | h
+        · exact henc
+        · exact (hsingles f h).2
+    rw [rxRun_map_encFrame true validL3 arrF [] hencAll]
+    obtain ⟨hP, hS⟩ := reassemble_any_interleaving_frames others (wholeOf cfg st p :: singles) arrF validL3
+      (fun m hm => (hothers m hm).1) hdisj' (fun m hm => (hothers m hm).2.1) hsok harr'
+    refine ⟨hP.trans ?_, hS⟩
+    simp only [List.map_cons]
+    exact List.perm_middle
+  · -- fragments
+    have htok' : (hdrOf cfg st p).token.length ≤ 32 := by
+      have : p.token.length ≤ 32 := hp.tok
+      simpa [hdrOf, headerOf] using this
+    have hov := overheadOf_le htok'
+    simp only [specMinMtu] at hmtu
+    have hlt : ¬ cfg.mtu ≤ overheadOf (hdrOf cfg st p) := by omega
+    rw [sendPacketF_frag cfg st p hfit hfrag hlt] at harr
+    simp only [numberFrom_eq_frames] at harr
+    have hwf := msgOf_wf cfg st p hp (by simp only [specMinMtu]; exact hmtu) hfit
+    have harr' : arrF.Perm ((msgOf cfg st p :: others).flatMap FMsg.frames ++ singles) := by
+      simpa [List.flatMap_cons, List.append_assoc] using harr
+    have hencAll : ∀ f ∈ arrF, f.Encodable := by
+      intro f hf
+      rcases List.mem_append.mp (harr'.mem_iff.mp hf) with h | h
+      · obtain ⟨m, hm, hfm⟩ := List.mem_flatMap.mp h
+        rcases List.mem_cons.mp hm with rfl | hm
+        · exact msgOf_frames_encodable cfg st p hp hwf f hfm
+        · exact (hothers m hm).2.2 f hfm
+      · exact (hsingles f h).2
+    rw [rxRun_map_encFrame true validL3 arrF [] hencAll]
+    obtain ⟨hP, hS⟩ := reassemble_any_interleaving_frames (msgOf cfg st p :: others) singles arrF validL3
+      (by
+        intro m hm
+        rcases List.mem_cons.mp hm with rfl | hm
+        · exact hwf
+        · exact (hothers m hm).1)
+      hdisjoint
+      (by
+        intro m hm
+        rcases List.mem_cons.mp hm with rfl | hm
+        · simp only [msgOf, chunks_flatten _ _ _ (Nat.le_refl _)]; exact hvp
+        · exact (hothers m hm).2.1)
+      (fun s hs => (hsingles s hs).1) harr'
+    refine ⟨?_, hS⟩
+    simpa [List.map_cons, msgOf_delivery] using hP
+
+/-- non-vacuity: a 300-byte packet on an MTU-128 face with the sequence counter at 2^64-1 (the
+    numbering wraps), no other traffic, fragments arriving in reverse order -/
+example (w : Bytes) (hw : w.length = 300) (validL3 : Bytes → Bool) (hv : validL3 w = true) :
+    (deliveries (rxRun true validL3 []
+        ((sendPacketF { mtu := 128 } { nextSeq := 18446744073709551615 } { wire := w }).2.1.reverse.map encFrame)).2).Perm
+      [⟨w, [], none⟩] := by
+  have := (reassemble_any_interleaving { mtu := 128 } { nextSeq := 18446744073709551615 } { wire := w } validL3
+    ⟨by simp [specMaxPkt, hw], by simp [specMaxToken], by simp, by simp⟩ (by simp [hw]) (by decide) rfl hv
+    [] [] (fun _ h => by simp at h) (fun _ h => by simp at h) (by simp)
+    (sendPacketF { mtu := 128 } { nextSeq := 18446744073709551615 } { wire := w }).2.1.reverse
+    (by simp)).1
+  simpa [congestionStep] using this
 
 end Ndn.C10
